@@ -76,7 +76,10 @@ def split_cases(text):
     """-> list of dict(begin, D, E, O, A, complete) ; plus global N stats"""
     cases, cur, stats = [], None, {}
     loose = {"begin": "tick-shard", "D": [], "E": [], "O": [], "A": [], "complete": True}
-    for line in text.splitlines():
+    lines = text.split("\n")
+    if lines and lines[-1] != "":
+        lines = lines[:-1]          # the harness died in the middle of a line: drop the fragment
+    for line in lines:
         tag, rest = line[:2], line[2:]
         if tag == "B ":
             cur = {"begin": rest, "D": [], "E": [], "O": [], "A": [], "complete": False}
@@ -131,7 +134,7 @@ def compare_case(ck, case, model_lines, stats, rp):
         elif kind == "frame":
             if et[:2] == ["k", "ok"]:
                 c["frames"] += 1
-                if et[10] == "1":
+                if len(et) > 10 and et[10] == "1":
                     c["repos"] += 1
                 if prev_ord is not None and et[2] != prev_ord:
                     c["ordchg"] += 1
@@ -194,7 +197,8 @@ def run(ck):
         for k, v in ns.items():
             nstats[k] += v
         if rc != 0:
-            last = cases[-1] if cases else {"begin": "?"}
+            named = re.findall(r"^CASE (.*)$", err, re.M)
+            last = {"begin": named[-1]} if named else (cases[-1] if cases else {"begin": "?"})
             if rc == -999:
                 sig = "hang:xmp_play_frame"
                 what = "harness timed out (endless loop in the player?) in case [%s]" % last["begin"]
